@@ -357,198 +357,4 @@ Section CompleteStat.
   Lemma case_St_intro : forall d d' ts t k, StatB FT d' ts t k -> PSB d' ts t k -> S d' <= d -> PSt d ts t k.
   Proof. intros d d' ts t k _ IH Hd lvl rest Hf Ha Hl. apply IH; try assumption. lia. Qed.
 
-  (* ---------------------------------------------------------------------------------------- *)
-  (** ** statements *)
-  Ltac stat_step eqn Hl :=
-    eapply ev_S; [intros f; rewrite eqn, (lvl_ok' _ _ Hl); reflexivity|].
-
-  Lemma case_SB_empty : forall d, PSB d [TSemi] (N KEmpty [L TSemi]) FAny.
-  Proof. intros d lvl rest _ _ Hl. stat_step stat_S_semi Hl. apply ev_const. Qed.
-
-  Lemma case_SB_label : forall d, f_goto FT = true ->
-    PSB d [TDbColon; TName; TDbColon] (N KLabel [L TDbColon; L TName; L TDbColon]) FAny.
-  Proof. intros d _ lvl rest _ _ Hl. stat_step stat_S_label Hl. apply ev_const. Qed.
-
-  Lemma case_SB_break : forall d semi,
-    PSB d (TBreak :: semi_toks semi) (N KBreak (L TBreak :: semi_trees semi)) (semi_kind semi FNoSemi).
-  Proof.
-    intros d semi lvl rest Hf _ Hl. norm_app. stat_step stat_S_break Hl.
-    rewrite (opt_semi_ok semi FNoSemi rest) by (try discriminate; exact Hf). apply ev_const.
-  Qed.
-
-  Lemma case_SB_goto : forall d semi, f_goto FT = true ->
-    PSB d (TGoto :: TName :: semi_toks semi) (N KGoto (L TGoto :: L TName :: semi_trees semi)) (semi_kind semi FNoSemi).
-  Proof.
-    intros d semi _ lvl rest Hf _ Hl. norm_app. stat_step stat_S_goto Hl.
-    rewrite (opt_semi_ok semi FNoSemi rest) by (try discriminate; exact Hf). apply ev_const.
-  Qed.
-
-  (** 'end' [';'] closing a statement node *)
-  Lemma ev_end_semi : forall semi k rest (g : list tree -> tree), k <> FAny ->
-    stat_follow (semi_kind semi k) rest = true ->
-    (match TEnd :: semi_toks semi ++ rest with
-     | TEnd :: r2 => let '(sm, r3) := opt_semi r2 in Ok (g sm) r3
-     | _ => Err
-     end) = Ok (g (semi_trees semi)) rest.
-  Proof. intros semi k rest g Hk Hf. cbv beta iota. rewrite (opt_semi_ok semi k rest Hk Hf). reflexivity. Qed.
-
-  Lemma case_SB_do : forall d tb b semi, BlockR FT d tb b -> PB d tb b ->
-    PSB d (TDo :: tb ++ TEnd :: semi_toks semi) (N KDo (L TDo :: b ++ L TEnd :: semi_trees semi)) (semi_kind semi FNoSemi).
-  Proof.
-    intros d tb b semi _ IH lvl rest Hf _ Hl. norm_app. stat_step stat_S_do Hl.
-    eapply (ev_bind _ _ (fun f => block f (S lvl) (tb ++ TEnd :: semi_toks semi ++ rest))).
-    - apply IH; [reflexivity|exact Hl].
-    - cbn beta. rewrite (ev_end_semi semi FNoSemi rest (fun sm => N KDo (L TDo :: b ++ L TEnd :: sm))) by (try discriminate; exact Hf).
-      apply ev_const.
-  Qed.
-
-  (** `if current != TkEnd && current != TkEof { parse_block }` before an 'end' *)
-  Lemma ev_block_opt_end : forall d tb b lvl rest, BlockR FT d tb b -> PB d tb b -> lvl + d <= MAXLVL ->
-    ev (fun f => if at_end (tb ++ TEnd :: rest) then Ok [] (tb ++ TEnd :: rest) else block f lvl (tb ++ TEnd :: rest))
-       (Ok b (TEnd :: rest)).
-  Proof.
-    intros d tb b lvl rest Hb IH Hl.
-    destruct (BlockR_cases _ _ _ _ Hb) as [[-> ->] | (x & r & -> & Hx & _)].
-    - apply ev_const.
-    - cbn [app at_end]. rewrite (block_follow_not_end x Hx).
-      apply (IH lvl (TEnd :: rest)); [reflexivity|exact Hl].
-  Qed.
-
-  (** `if !block_follow { parse_block }` before something that ends a block *)
-  Lemma ev_block_opt_follow : forall d tb b lvl rest, BlockR FT d tb b -> PB d tb b -> lvl + d <= MAXLVL ->
-    block_follow rest = true ->
-    ev (fun f => if block_follow (tb ++ rest) then Ok [] (tb ++ rest) else block f lvl (tb ++ rest)) (Ok b rest).
-  Proof.
-    intros d tb b lvl rest Hb IH Hl Hr.
-    destruct (BlockR_cases _ _ _ _ Hb) as [[-> ->] | (x & r & -> & Hx & _)].
-    - cbn [app]. rewrite Hr. apply ev_const.
-    - rewrite block_follow_app, Hx. apply (IH lvl rest Hr Hl).
-  Qed.
-
-  Lemma case_SB_while : forall d te e tb b semi,
-    E FT 1 d te e -> PE 1 d te e -> BlockR FT d tb b -> PB d tb b ->
-    PSB d (TWhile :: te ++ TDo :: tb ++ TEnd :: semi_toks semi)
-        (N KWhile (L TWhile :: e :: L TDo :: b ++ L TEnd :: semi_trees semi)) (semi_kind semi FNoSemi).
-  Proof.
-    intros d te e tb b semi _ IHe Hb IHb lvl rest Hf _ Hl. norm_app. stat_step stat_S_while Hl.
-    eapply (ev_bind _ _ (fun f => sub_expr f (S lvl) 0 (te ++ TDo :: tb ++ TEnd :: semi_toks semi ++ rest))).
-    - apply (pe_top d _ _ IHe); try assumption; reflexivity.
-    - cbn beta. cbv iota.
-      eapply (ev_bind _ _ (fun f => if at_end (tb ++ TEnd :: semi_toks semi ++ rest) then Ok [] (tb ++ TEnd :: semi_toks semi ++ rest)
-                                    else block f (S lvl) (tb ++ TEnd :: semi_toks semi ++ rest))).
-      + apply (ev_block_opt_end d tb b (S lvl) _ Hb IHb Hl).
-      + cbn beta.
-        rewrite (ev_end_semi semi FNoSemi rest (fun sm => N KWhile (L TWhile :: e :: L TDo :: b ++ L TEnd :: sm))) by (try discriminate; exact Hf).
-        apply ev_const.
-  Qed.
-
-  Lemma case_SB_repeat : forall d tb b te e semi,
-    BlockR FT d tb b -> PB d tb b -> E FT 1 d te e -> PE 1 d te e ->
-    PSB d (TRepeat :: tb ++ TUntil :: te ++ semi_toks semi)
-        (N KRepeat (L TRepeat :: b ++ L TUntil :: e :: semi_trees semi)) (semi_kind semi FExpr).
-  Proof.
-    intros d tb b te e semi _ IHb _ IHe lvl rest Hf Ha Hl. norm_app. stat_step stat_S_repeat Hl.
-    eapply (ev_bind _ _ (fun f => block f (S lvl) (tb ++ TUntil :: te ++ semi_toks semi ++ rest))).
-    - apply IHb; [reflexivity|exact Hl].
-    - cbn beta. cbv iota.
-      eapply (ev_bind _ _ (fun f => sub_expr f (S lvl) 0 (te ++ semi_toks semi ++ rest))).
-      + apply (pe_top d _ _ IHe); try assumption; apply (exprendb_split _ (expr_stmt_end semi rest Hf Ha)).
-      + cbn beta. rewrite (opt_semi_ok semi FExpr rest) by (try discriminate; exact Hf). apply ev_const.
-  Qed.
-
-  Lemma IfTail_head : forall d ts trs rest, IfTail FT d ts trs -> block_follow (ts ++ TEnd :: rest) = true.
-  Proof. intros d ts trs rest H. inversion H; subst; reflexivity. Qed.
-
-  Lemma case_SB_if : forall d te e tb b tcs cs semi,
-    E FT 1 d te e -> PE 1 d te e -> BlockR FT d tb b -> PB d tb b -> IfTail FT d tcs cs -> PIT d tcs cs ->
-    PSB d (TIf :: te ++ TThen :: tb ++ tcs ++ TEnd :: semi_toks semi)
-        (N KIf (L TIf :: e :: L TThen :: b ++ cs ++ L TEnd :: semi_trees semi)) (semi_kind semi FNoSemi).
-  Proof.
-    intros d te e tb b tcs cs semi _ IHe Hb IHb Ht IHt lvl rest Hf _ Hl. norm_app. stat_step stat_S_if Hl.
-    eapply (ev_bind _ _ (fun f => sub_expr f (S lvl) 0 (te ++ TThen :: tb ++ tcs ++ TEnd :: semi_toks semi ++ rest))).
-    - apply (pe_top d _ _ IHe); try assumption; reflexivity.
-    - cbn beta. cbv iota.
-      eapply (ev_bind _ _ (fun f => if block_follow (tb ++ tcs ++ TEnd :: semi_toks semi ++ rest)
-                                    then Ok [] (tb ++ tcs ++ TEnd :: semi_toks semi ++ rest)
-                                    else block f (S lvl) (tb ++ tcs ++ TEnd :: semi_toks semi ++ rest))).
-      + apply (ev_block_opt_follow d tb b (S lvl) _ Hb IHb Hl). apply (IfTail_head _ _ _ _ Ht).
-      + cbn beta.
-        eapply (ev_bind _ _ (fun f => if_tail f (S lvl) (L TIf :: e :: L TThen :: b) (tcs ++ TEnd :: semi_toks semi ++ rest))).
-        * apply (IHt (S lvl) (L TIf :: e :: L TThen :: b) (semi_toks semi ++ rest) Hl).
-        * cbn beta.
-          rewrite (ev_end_semi semi FNoSemi rest (fun sm => N KIf (((L TIf :: e :: L TThen :: b) ++ cs) ++ L TEnd :: sm))) by (try discriminate; exact Hf).
-          eapply ev_eq; [|apply ev_const]. norm_app. reflexivity.
-  Qed.
-
-  (** parse_for: 'do' [block] 'end' [';'] *)
-  Lemma ev_for_body : forall d k acc tb b semi lvl rest, BlockR FT d tb b -> PB d tb b -> lvl + d <= MAXLVL ->
-    stat_follow (semi_kind semi FNoSemi) rest = true ->
-    ev (fun f => for_body f lvl k acc (TDo :: tb ++ TEnd :: semi_toks semi ++ rest))
-       (Ok (N k (acc ++ L TDo :: b ++ L TEnd :: semi_trees semi)) rest).
-  Proof.
-    intros d k acc tb b semi lvl rest Hb IHb Hl Hf.
-    eapply ev_S; [intros f; cbn [Model.for_body]; reflexivity|].
-    eapply (ev_bind _ _ (fun f => if at_end (tb ++ TEnd :: semi_toks semi ++ rest) then Ok [] (tb ++ TEnd :: semi_toks semi ++ rest)
-                                  else block f lvl (tb ++ TEnd :: semi_toks semi ++ rest))).
-    - apply (ev_block_opt_end d tb b lvl _ Hb IHb Hl).
-    - cbn beta.
-      rewrite (ev_end_semi semi FNoSemi rest (fun sm => N k (acc ++ L TDo :: b ++ L TEnd :: sm))) by (try discriminate; exact Hf).
-      apply ev_const.
-  Qed.
-
-  Lemma case_SB_fornum : forall d t1 e1 t2 e2 tstep step tb b semi,
-    E FT 1 d t1 e1 -> PE 1 d t1 e1 -> E FT 1 d t2 e2 -> PE 1 d t2 e2 -> ForStep FT d tstep step -> PFS d tstep step ->
-    BlockR FT d tb b -> PB d tb b ->
-    PSB d (TFor :: TName :: TAssign :: t1 ++ TComma :: t2 ++ tstep ++ TDo :: tb ++ TEnd :: semi_toks semi)
-        (N KFor (L TFor :: L TName :: L TAssign :: e1 :: L TComma :: e2 :: step ++ L TDo :: b ++ L TEnd :: semi_trees semi))
-        (semi_kind semi FNoSemi).
-  Proof.
-    intros d t1 e1 t2 e2 tstep step tb b semi _ IH1 _ IH2 Hs IHs Hb IHb lvl rest Hf _ Hl. norm_app.
-    stat_step stat_S_fornum Hl.
-    eapply (ev_bind _ _ (fun f => sub_expr f (S lvl) 0 (t1 ++ TComma :: t2 ++ tstep ++ TDo :: tb ++ TEnd :: semi_toks semi ++ rest))).
-    - apply (pe_top d _ _ IH1); try assumption; reflexivity.
-    - cbn beta. cbv iota.
-      eapply (ev_bind _ _ (fun f => sub_expr f (S lvl) 0 (t2 ++ tstep ++ TDo :: tb ++ TEnd :: semi_toks semi ++ rest))).
-      + apply (pe_top d _ _ IH2); try assumption; inversion Hs; subst; reflexivity.
-      + cbn beta.
-        eapply (ev_bind _ _ (fun f => if hd_is TComma (tstep ++ TDo :: tb ++ TEnd :: semi_toks semi ++ rest)
-                                      then bind (sub_expr f (S lvl) 0 (tl (tstep ++ TDo :: tb ++ TEnd :: semi_toks semi ++ rest)))
-                                                (fun e3 r6 => Ok [L TComma; e3] r6)
-                                      else Ok [] (tstep ++ TDo :: tb ++ TEnd :: semi_toks semi ++ rest))).
-        * apply (IHs (S lvl) (tb ++ TEnd :: semi_toks semi ++ rest) Hl).
-        * cbn beta.
-          eapply ev_eq; [|apply (ev_for_body d KFor _ tb b semi (S lvl) rest Hb IHb Hl Hf)].
-          cbn [app]. reflexivity.
-  Qed.
-
-  Lemma case_SB_forin : forall d tn ns te e tes es tb b semi,
-    NamesTail tn ns -> E FT 1 d te e -> PE 1 d te e -> ExpTail FT d tes es -> PET d tes es -> BlockR FT d tb b -> PB d tb b ->
-    PSB d (TFor :: TName :: tn ++ TIn :: te ++ tes ++ TDo :: tb ++ TEnd :: semi_toks semi)
-        (N KForRange (L TFor :: L TName :: ns ++ L TIn :: e :: es ++ L TDo :: b ++ L TEnd :: semi_trees semi))
-        (semi_kind semi FNoSemi).
-  Proof.
-    intros d tn ns te e tes es tb b semi Hn _ IHe Ht IHt Hb IHb lvl rest Hf _ Hl. norm_app.
-    assert (Hx : exists x r, tn ++ TIn :: te ++ tes ++ TDo :: tb ++ TEnd :: semi_toks semi ++ rest = x :: r /\ (x = TComma \/ x = TIn)).
-    { inversion Hn; subst; do 2 eexists; (split; [reflexivity|tauto]). }
-    destruct Hx as (x & r & Heq & Hx).
-    eapply ev_S with (h := fun f =>
-        bind (for_names_tail (tn ++ TIn :: te ++ tes ++ TDo :: tb ++ TEnd :: semi_toks semi ++ rest) [])
-             (fun ns0 r2 =>
-                match r2 with
-                | TIn :: r3 =>
-                    bind (sub_expr f (S lvl) 0 r3)
-                         (fun e0 r4 => bind (expr_list_tail f (S lvl) [e0] r4)
-                                            (fun es0 r5 => for_body f (S lvl) KForRange (L TFor :: L TName :: ns0 ++ L TIn :: es0) r5))
-                | _ => Err
-                end)).
-    - intros f. rewrite Heq. rewrite (stat_S_forin f lvl x r Hx), (lvl_ok' _ _ Hl). reflexivity.
-    - rewrite (for_names_tail_ok _ _ Hn). cbn [bind]. cbv iota. cbn [app].
-      eapply (ev_bind _ _ (fun f => bind (sub_expr f (S lvl) 0 (te ++ tes ++ TDo :: tb ++ TEnd :: semi_toks semi ++ rest))
-                                         (fun e0 r1 => expr_list_tail f (S lvl) [e0] r1))
-                      (fun f es0 r5 => for_body f (S lvl) KForRange (L TFor :: L TName :: ns ++ L TIn :: es0) r5)).
-      + apply (ev_explist d te e tes es (S lvl) _ IHe Ht IHt); [reflexivity|exact Hl].
-      + cbn beta.
-        eapply ev_eq; [|apply (ev_for_body d KForRange _ tb b semi (S lvl) rest Hb IHb Hl Hf)].
-        norm_app. reflexivity.
-  Qed.
 End CompleteStat.
